@@ -14,6 +14,8 @@ BOX_ACTIONS = [(0.5, 0.25), (0.25, 0.5), (-0.25, 0.75)]
 DISC_ALLOC = {
     "disc0": [[0.0, 0.0], [0.5, 0.25], [0.25, 0.5], [-0.25, 0.75]],
     "disc1": [[0.125, 0.0625], [0.5, 0.25], [0.25, 0.5], [-0.25, 0.75]],
+    # action 0 is NOT the flat allocation, a later action is: the null action of a discrete space is still action 0
+    "disc2": [[0.125, 0.0625], [0.0, 0.0], [0.25, 0.5], [-0.25, 0.75]],
 }
 
 
@@ -27,7 +29,7 @@ def extra_positions(G, L):
         pos.append(t + timedelta(seconds=1))
         if L:
             pos.append(t + timedelta(seconds=L))
-        pos.append(t + timedelta(seconds=L + 1))
+        pos.append(t + timedelta(seconds=L + 0.4))      # a fraction of a second after the window closes
         pos.append(t2 - timedelta(seconds=1))
     return sorted(set(pos))
 
@@ -143,6 +145,8 @@ def units(tier):
                 for d in delays:
                     for space in ("box", "disc0", "disc1"):
                         out.append((nbars, L, d, space, list(extras)))
+                    if not extras and d:
+                        out.append((nbars, L, d, "disc2", []))
     # two quotes for the same contract inside ONE latency window / one gap (the LAST one prices the execution)
     for L in (30, 4.1):
         pos = extra_positions(grid(nbars), L)
@@ -212,8 +216,8 @@ def run(tier, **kw):
     rep.set("distinct_nontrivial", len(nontrivial))
     rep.set("exhaustive", True)
     rep.set("rule", "one evaluation = one complete episode; enumerated: 5-bar stream (2 contracts, every bar a distinct price, spread 2) x latency "
-                    "{0, 30s, 4.1s, 8.2s} x every subset of <= 1 (quick) / <= 2 (thorough) extra quotes over {t+1s, t+L, t+L+1s, t'-1s} of every consecutive "
-                    "pair x delay {0,1,2,3} x {Box, Discrete with zero first allocation, Discrete with non-zero first allocation} x all 3^4 "
+                    "{0, 30s, 4.1s, 8.2s} x every subset of <= 1 (quick) / <= 2 (thorough) extra quotes over {t+1s, t+L, t+L+0.4s, t'-1s} of every consecutive "
+                    "pair x delay {0,1,2,3} x {Box, Discrete with zero first allocation, Discrete with non-zero first allocation, Discrete whose flat allocation is not action 0} x all 3^4 "
                     "action sequences over 3 pairwise-distinct actions, plus the latency > 0 configurations with price-free events added to the transmitter after the environment was built (same environment reused across sequences via reset); non-trivial = "
                     "distinct (allocations executed, trade prices) outcome with delay > 0 or an extra quote")
     rep.set("samples", [{"nbars": 5, "L": 30, "d": 2, "space": "disc1", "extras": [1], "seq": [0, 2, 1, 1]}])
